@@ -183,9 +183,3 @@ Example C06_nonvacuous :
   snd (nstep exOk exAcc (nrun_from exOk exAcc (ninit []) (take 9 ex_hist)) (mkNC [] true 14, NewEpoch 3))
   = [NCall exB 3; NCall exA 3; NNewEpoch 3].
 Proof. vm_compute. auto 10. Qed.
-
-(** Source constants.  The literals of the model behind this property are tied to the
-    constants of /repo's Go sources (Gen/Params.v, regenerated from the working tree on
-    every run) in Proofs/TiesNetmap.v; requiring that file here makes the obligations of this
-    property fail when a constant it depends on is edited in the source. *)
-Require Verif.Proofs.TiesNetmap.
